@@ -222,6 +222,33 @@ def eval_tree(t, row):
         if k == "null":
             return None
         args = v if isinstance(v, list) else [v]
+        if k == "case":
+            # documented: a list of {"when": condition, "then": value} branches, optionally followed by the ELSE value;
+            # the first branch whose condition is TRUE (not NULL, not 0) wins
+            for b in args:
+                if isinstance(b, dict) and set(b) == {"when", "then"}:
+                    c = eval_tree(b["when"], row)
+                    if c is not None and c != 0:
+                        return eval_tree(b["then"], row)
+                else:
+                    return eval_tree(b, row)
+            return None
+        if k == "cast":
+            if args[1] in ({"int": {}}, {"integer": {}}, {"bigint": {}}):
+                return eval_tree(args[0], row)
+            raise NotEvaluable("cast to " + repr(args[1])[:30])
+        if k in ("coalesce", "ifnull"):
+            for a in args:
+                x = eval_tree(a, row)
+                if x is not None:
+                    return x
+            return None
+        if k == "nullif":
+            a, b = eval_tree(args[0], row), eval_tree(args[1], row)
+            return None if (a is not None and b is not None and a == b) else a
+        if k == "abs":
+            x = eval_tree(args[0], row)
+            return None if x is None else abs(x)
         if k in ("and", "or"):
             vals = [eval_tree(a, row) for a in args]
             return _and3(vals) if k == "and" else _or3(vals)
@@ -346,10 +373,66 @@ def sqlite_values(ctx):
                         {"sql": "SELECT " + text, "kind": "sqlite", "text": text})
 
 
+CASE_ATOMS = ["x1", "x2", "x3", "NULL", "0", "1", "2", "( NULL )", "x1 + 1", "- x2", "x1 > x2", "NOT x3"]
+
+
+def case_battery(ctx):
+    """CASE (searched and simple), CAST / ::, and calls: the texts the property names besides the operators.  The value
+    of the returned tree under the documented meaning (a simple CASE compares its subject with `=`: a NULL subject
+    or WHEN value never matches) against SQLite's value of the text, row by row"""
+    import itertools
+    rng = ctx.rng
+    texts = []
+    for subj, w1, w2 in itertools.product(CASE_ATOMS[:8], CASE_ATOMS[:8], CASE_ATOMS[:5]):
+        texts.append("CASE %s WHEN %s THEN 10 WHEN %s THEN 20 ELSE 30 END" % (subj, w1, w2))
+    for subj, w1 in itertools.product(CASE_ATOMS, CASE_ATOMS):
+        texts.append("CASE %s WHEN %s THEN x2 END" % (subj, w1))
+        texts.append("CASE WHEN %s THEN 10 WHEN %s IS NULL THEN 20 ELSE x3 END" % (w1, subj))
+        if "NULL" not in subj + w1:      # `x = NULL` written out is the documented folding to missing (C10 / C11), not SQL's `=`
+            texts.append("CASE WHEN %s = %s THEN 1 ELSE 0 END + 1" % (subj, w1))
+    for a, b in itertools.product(CASE_ATOMS[:7], CASE_ATOMS[:7]):
+        texts += ["COALESCE( %s , %s , 7 )" % (a, b), "NULLIF( %s , %s )" % (a, b), "IFNULL( %s , %s ) * 2" % (a, b),
+                  "CAST( %s AS int ) + %s" % (a, b), "ABS( %s - %s )" % (a, b), "- ABS( %s ) * %s" % (a, b),
+                  "CASE x1 WHEN %s THEN CASE %s WHEN 1 THEN 5 END ELSE 6 END" % (a, b)]
+    if ctx.quick:
+        texts = rng.sample(texts, 500)
+    return texts
+
+
+def sqlite_battery(ctx):
+    import sqlite3
+    rep = ctx.rep
+    R = C.real()
+    con = sqlite3.connect(":memory:")
+    con.execute("create table t (x1 integer, x2 integer, x3 integer)")
+    con.executemany("insert into t values (?, ?, ?)", ROWS)
+    rows = [dict(zip(("x1", "x2", "x3"), r)) for r in ROWS]
+    for text in case_battery(ctx):
+        r = R.parse_raw("SELECT " + text)
+        if r[0] != "ok":
+            rep.finding("case-battery:rejected", "parse rejects %r (%s)" % (text, r[1]), {"sql": "SELECT " + text, "kind": "sqlite", "text": text})
+            continue
+        tree = r[1]["select"]["value"] if isinstance(r[1].get("select"), dict) and "value" in r[1]["select"] else r[1].get("select")
+        try:
+            got = [v[0] for v in con.execute("select " + text + " from t order by rowid")]
+            mine = [eval_tree(tree, row) for row in rows]
+        except (sqlite3.Error, NotEvaluable, OverflowError, ValueError, TypeError, KeyError) as ex:
+            rep.count("sqlite_battery", "skipped:" + type(ex).__name__)
+            continue
+        rep.case("sqlite:" + text)
+        rep.count("sqlite_battery", "compared")
+        if got != mine:
+            root = next(iter(tree)) if isinstance(tree, dict) else "atom"
+            rep.finding("sqlite-value-differs:battery:" + root,
+                        "SQLite evaluates %r to %s on the test table, the tree %s means %s" % (text[:160], got, C.cdump(C.canon(tree))[:200], mine),
+                        {"sql": "SELECT " + text, "kind": "sqlite", "text": text})
+
+
 def run(ctx):
     items = cases(ctx)
     evaluate(ctx, items)
     sqlite_values(ctx)
+    sqlite_battery(ctx)
 
 
 def search(ctx):
